@@ -27,6 +27,7 @@ def dispatch (op : String) (j : Json) : Except String Json :=
   | "view.index" => View.opIndex j
   | "view.select" => View.opSelect j
   | "order.run" => Order.opRun j
+  | "order.command" => Order.opCommand j
   | _ => throw s!"unknown op {op}"
 
 partial def loop (h : IO.FS.Stream) (out : IO.FS.Stream) : IO Unit := do
